@@ -182,6 +182,9 @@ class Runner:
 
 def build_all(chk, legs):
     w = chk.work
+    if os.environ.get("C06_DEV_PREBUILT"):  # DEV-ONLY
+        d = os.environ["C06_DEV_PREBUILT"]
+        return {l: os.path.join(d, "mapvm-%s.bin" % l) for l in legs}, {l: "" for l in legs}
     llgo = core.build_llgo(w)
     bins, logs = {}, {}
 
@@ -237,8 +240,14 @@ def replay(d):
 def main():
     global CHK
     chk = CHK = core.Check("C06")
+    if os.environ.get("C06_ASSUME_FIXED"):
+        # validation of proposed fixes in a scratch worktree before the coordinator flips the findings:
+        # treat every finding as fixed (probes become regression guards, nothing is avoided) - only ever stricter
+        for f in chk.findings:
+            f["status"] = "fixed"
     open_memclr = chk.is_open("C06-memclr-stub")
     open_indirect = chk.is_open("C06-indirect-slot-size")
+    open_nan = chk.is_open("C06-iter-samesize-nan")
     thorough = chk.tier == "thorough"
     legs = ["go", "llgo", "nogc"] + (["go126"] if thorough else [])
     bins, logs = build_all(chk, legs)
@@ -272,6 +281,10 @@ def main():
             return "C06-indirect-slot-size"
         if open_memclr and (p["flags"] & gen.F_PROBE or int(gstat.get("clearsGrown", "0")) > 0):
             return "C06-memclr-stub"
+        lb = (info or {}).get("llgo") or {}
+        if open_nan and verdict[0] == "monitor" and lb.get("monitor") and all("missed a NaN-keyed entry" in m for m in lb["monitor"]) \
+                and int(lb.get("stat", {}).get("samesize", "1") or 1) > 0:
+            return "C06-iter-samesize-nan"
         return None
 
     def report(spec, verdict, info, leg):
@@ -313,27 +326,30 @@ def main():
         os.chmod(os.path.join(core.V, "replays", "%s-%s-s%d-%s" % (chk.pid, chk.tier, chk.seed, name), "replay.sh"), 0o755)
 
     # ---- 1. probes of the findings (fixed cases, always first)
+    pjobs = [(f, leg) for f in chk.findings for leg in ("llgo", "nogc") if gen.PROBES.get(f["id"])]
+
+    def do_probe(j):
+        return j, R.run_batch(gen.PROBES[j[0]["id"]], j[1])
+
+    pres = {}
+    for (f, leg), res in core.pmap(do_probe, pjobs, workers=WORKERS):
+        if res and res[0][0] == "__oracle__":
+            broken(res[0][1])
+        chk.cov["evaluations"] += sum(1 for r in res if r[1] is None or r[1][0] != "not-run")
+        for spec, verdict, info in res:
+            if verdict is not None and verdict[0] != "not-run":
+                pres.setdefault(f["id"], (spec, verdict, info, leg))
     for f in chk.findings:
-        fid = f["id"]
-        for pspec in gen.PROBES.get(fid, []):
-            failed = None
-            for leg in ("llgo", "nogc"):
-                res = R.run_batch([pspec], leg)
-                if res[0][0] == "__oracle__":
-                    broken(res[0][1])
-                chk.cov["evaluations"] += 1
-                if res[0][1] is not None:
-                    failed = (res[0], leg)
-                    break
-            if failed is None:
-                continue
-            if f.get("status") == "open":
-                chk.known(fid, "")
-            else:
-                report(pspec, failed[0][1], failed[0][2], failed[1])
+        hit = pres.get(f["id"])
+        if hit is None:
+            continue
+        if f.get("status") == "open":
+            chk.known(f["id"], "")
+        else:
+            report(*hit)
 
     # ---- 2. random histories
-    specs = gen.histories(chk.seed, chk.tier, avoid_clear_grown=open_memclr, avoid_indirect=open_indirect)
+    specs = gen.histories(chk.seed, chk.tier, avoid_clear_grown=open_memclr, avoid_indirect=open_indirect, avoid_nan_churn=open_nan)
     bsz = 10 if thorough else 6
     jobs = []
     for i in range(0, len(specs), bsz):
@@ -399,7 +415,8 @@ def main():
     chk.cov["operations_executed_per_build"] = ops_total
     chk.cov["llgo_map_internals_reached"] = stats
     chk.cov["avoided_constructs"] = ([("clear() on a map object that ever held > 52 entries (finding C06-memclr-stub open): probe only")] if open_memclr else []) + \
-        ([("key or elem types larger than 128 bytes (finding C06-indirect-slot-size open): probe only")] if open_indirect else [])
+        ([("key or elem types larger than 128 bytes (finding C06-indirect-slot-size open): probe only")] if open_indirect else []) + \
+        ([("NaN keys in the same-size-grow churn profiles (finding C06-iter-samesize-nan open): probe only")] if open_nan else [])
     chk.cov["rule"] = ("fixed generic map VM (10 key types incl. float64 with +-0/NaN, interface{} with 14 dynamic types and unhashable values, padded/indirect structs x 5 value types incl. zero-size and >128-byte "
                        "elems) compiled once by llgo (gc and nogc builds) and go1.24; per history (seeded, up to 50k ops: insert/update/delete/lookup/comma-ok/len/clear/make(hint)/nil-map ops/unhashable keys/"
                        "range-collect/break/delete-current/delete-other/insert/bounce/nested/clear-in-loop/sorted dump; profiles oscillate around every load-factor threshold 8..6656 and churn below thresholds "
